@@ -122,14 +122,20 @@ class Fn:
         self.aliases = {}               # parameter of an inlined helper -> (PE, field) of its argument
         self.src = ""                   # source of the class (helpers are looked up there)
         self.depth = 0
+        self.fresh = {}                 # PE of a freshly allocated block -> {"lhs": tokens, "ref1": bool, "copied": bool}
+        self.content = {}               # name of a pointer to the content of a fresh Variant block -> PE of the block
+        self.tparam = None              # name of a parameter that is not a handle (`const String& other` of Variant::operator=)
 
 
 def px(fn, t):
     """tokens -> (Lean PE term, field) with field in {"ref", "obj", "raw", "none"}; None if t is not a pointer expression"""
     t = list(t)
     # strip redundant parentheses
-    while len(t) >= 2 and t[0] == "(" and match_close(t, 0, "(", ")") == len(t) - 1:
-        t = t[1:-1]
+    try:
+        while len(t) >= 2 and t[0] == "(" and match_close(t, 0, "(", ")") == len(t) - 1:
+            t = t[1:-1]
+    except Refuse:
+        return None
     if len(t) == 1:
         n = t[0]
         if n in fn.aliases:
@@ -175,6 +181,7 @@ def need_px(fn, t, what):
 
 def seq(stmts):
     stmts = [s for s in stmts if s != ".skip"]
+    stmts = [s for k, s in enumerate(stmts) if not (s == ".writeInPlace" and k > 0 and stmts[k - 1] == ".writeInPlace")]
     if not stmts:
         return ".skip"
     out = stmts[-1]
@@ -238,11 +245,67 @@ class Parser:
             self.i = e + 1
             return s
         start = self.i
-        if self.peek() == "if":
-            self.stmt()                     # parse (and discard) to find its end
-            return self.t[start:self.i]
-        self.until_semicolon()
+        self.i = self.skip_stmt(self.i)
         return self.t[start:self.i]
+
+    def skip_stmt(self, i):
+        """index after the statement starting at token i (no side effects)"""
+        t = self.t
+        if i >= len(t):
+            raise Refuse("statement expected")
+        if t[i] == "{":
+            return match_close(t, i, "{", "}") + 1
+        if t[i] == "if":
+            e = match_close(t, i + 1, "(", ")")
+            j = self.skip_stmt(e + 1)
+            if j < len(t) and t[j] == "else":
+                j = self.skip_stmt(j + 1)
+            return j
+        depth = 0
+        for j in range(i, len(t)):
+            if t[j] in "([{":
+                depth += 1
+            elif t[j] in ")]}":
+                depth -= 1
+            elif t[j] == ";" and depth == 0:
+                return j + 1
+        raise Refuse("missing ;")
+
+    def ends_with_return(self, toks):
+        """does the statement list end with a top-level `return …;`"""
+        depth, start = 0, 0
+        last = None
+        for j, t in enumerate(toks):
+            if t in "([{":
+                depth += 1
+            elif t in ")]}":
+                depth -= 1
+                if depth == 0 and t == "}":
+                    start = j + 1
+            elif t == ";" and depth == 0:
+                last = toks[start:j]
+                start = j + 1
+        return bool(last) and last[0] == "return"
+
+    def guard(self, c):
+        """the plain read of the counter that decides between the in-place path and the clone"""
+        fn = self.fn
+        if fn.cls == "String":
+            parts = split_top(c, "&&")
+            if parts[0] == ["data", "->", "ref", "==", "1"] and len(parts) <= 2:
+                return ".sole"
+            return None
+        if fn.cls == "Variant":
+            parts = split_top(c, "||")
+            ty = lambda x: len(x) == 5 and x[:4] == ["data", "->", "type", "!="]
+            sh = lambda x: x == ["data", "->", "ref", ">", "1"]
+            if len(parts) == 2 and ty(parts[0]) and sh(parts[1]):
+                return ".notSole"
+            if len(parts) == 1 and ty(parts[0]):
+                return ".wrongType"
+            if len(parts) == 1 and sh(parts[0]):
+                return ".shared"
+        return None
 
     def release_cond(self, c):
         """`<p>->ref && Atomic::decrement(<p>->ref) == 0` / `<p> && Atomic::decrement(<p>->ref) == 0` -> p tokens or None"""
@@ -304,6 +367,10 @@ class Parser:
             if self.peek() == "else":
                 self.i += 1
                 else_t = self.one_stmt_tokens()
+            if self.ends_with_return(then_t) and self.i < len(self.t):
+                # `if(c) { …; return …; } [else X] rest`  ==  `if(c) { … } else { [X] rest }`
+                else_t = (else_t or []) + self.t[self.i:]
+                self.i = len(self.t)
             p = self.release_cond(cond)
             if p is not None:
                 if else_t is not None:
@@ -321,6 +388,8 @@ class Parser:
                 c = f".counted {px(fn, cond)[0]}"
             elif len(cond) > 3 and cond[-3:] == ["==", "&", "emptyData"] and px(fn, cond[:-3]) is not None:
                 c = f".isStatic {px(fn, cond[:-3])[0]}"
+            elif self.guard(cond) is not None:
+                c = self.guard(cond)
             else:
                 raise Refuse(f"condition not understood: {' '.join(cond)}")
             a = self.sub(then_t)
@@ -328,9 +397,15 @@ class Parser:
             return f".ite ({c}) ({a}) ({b})"
         if t == "return":
             s = self.until_semicolon()
-            if s != ["return", "*", "this"]:
-                raise Refuse(f"return of something else than *this: {' '.join(s)}")
-            return ".skip"
+            if self.i < len(self.t):
+                raise Refuse("statements after a return")
+            if s == ["return", "*", "this"] or s == ["return"]:
+                return ".skip"
+            if len(s) == 3 and s[1] == "*" and s[2] in fn.content:
+                return ".skip"                      # reference into the fresh block
+            if fn.cls == "Variant" and s[1:3] == ["*", "("] and s[-5:] == ["(", "data", "+", "1", ")"]:
+                return ".writeInPlace"              # mutable reference into the shared-checked payload
+            raise Refuse(f"return not understood: {' '.join(s)}")
         if t in ("for", "while", "do", "switch", "goto", "try"):
             raise Refuse(f"statement `{t}` is outside the subset")
         s = self.until_semicolon()
@@ -354,6 +429,9 @@ class Parser:
             if "new" not in self.t[self.i:self.i + 12]:
                 raise Refuse("`usize capacity = …` that is not followed by an allocation")
             return ".skip"
+        r = self.block_stmt(s)
+        if r is not None:
+            return r
         if "=" in s:
             k = s.index("=")
             lhs, rhs = s[:k], s[k + 1:]
@@ -375,7 +453,8 @@ class Parser:
                     pe = f"(.loc {fn.nloc})"
                     fn.locals[name] = (fn.nloc, "ref")
                     fn.nloc += 1
-                    return seq([".bind .static_", self.alloc(pe, [name], rhs)])
+                    self.alloc(pe, [name], rhs)
+                    return ".bind .static_"
                 r, f = need_px(fn, rhs, "initialiser of a pointer local")
                 if f == "raw":
                     f = "ref" if lhs[:-2] == ["Object"] else "obj"
@@ -393,7 +472,8 @@ class Parser:
                 if rhs[:1] == ["("] and "new" in rhs:
                     if l[1] != "ref":
                         raise Refuse("allocation into the uncounted field")
-                    return self.alloc(l[0], lhs, rhs)
+                    self.alloc(l[0], lhs, rhs)
+                    return ".skip"
                 r, f = need_px(fn, rhs, "pointer store")
                 if f not in (l[1], "raw", "none"):
                     raise Refuse(f"store mixes the fields: {' '.join(s)}")
@@ -440,39 +520,82 @@ class Parser:
         return ".copyInline .other"
 
     def alloc(self, pe, lhs, rhs):
-        """`p = (Data*)new char[…];` + initialisation of the fresh block (until a statement that does not mention p)"""
+        """`p = (Data*)new char[…];`: p is a fresh block from here on (its initialisation and the copy into it follow)"""
         if rhs[:5] != ["(", "Data", "*", ")", "new"] or rhs[5] != "char":
             raise Refuse(f"allocation: {' '.join(rhs)[:60]}")
-        ref1, src = False, None
-        while self.i < len(self.t):
-            save = self.i
-            if self.peek() in ("if", "return", "{", "}"):
-                break
-            s = self.until_semicolon()
-            js = " ".join(s)
-            pj = " ".join(lhs)
-            if s[:len(lhs) + 1] == lhs + ["->"] and "=" in s:
-                if s[len(lhs) + 1] == "ref":
-                    if s[len(lhs) + 2:] != ["=", "1"]:
-                        raise Refuse("fresh block: ref is not set to 1")
-                    ref1 = True
-                continue
-            if js.startswith("( ( char * ) " + pj + " -> str ) ["):
-                continue
-            if s[:4] == ["Memory", "::", "copy", "("] and js.startswith("Memory :: copy ( ( char * ) " + pj + " -> str"):
+        self.fn.fresh[pe] = {"lhs": list(lhs), "ref1": False, "copied": False}
+
+    def block_stmt(self, s):
+        """statements on a fresh block (initialisation, the copy of the source) and in-place writes to the own payload"""
+        fn = self.fn
+        js = " ".join(s)
+        # field stores  <p> -> f = …
+        if len(s) > 3 and "=" in s and "->" in s and s.index("->") < s.index("="):
+            k = s.index("->")
+            r = px(fn, s[:k])
+            if r is not None and s[k + 2] == "=":
+                pe, f = r[0], s[k + 1]
+                if pe in fn.fresh or (fn.cls == "Variant" and pe == ".self" and f in ("type", "ref") and fn.fresh):
+                    if f == "ref":
+                        if s[k + 3:] != ["1"]:
+                            raise Refuse("fresh block: ref is not set to 1")
+                        for v in ([fn.fresh[pe]] if (pe in fn.fresh and pe != ".self") else fn.fresh.values()):
+                            v["ref1"] = True
+                    return ".skip"
+                if fn.cls == "String" and pe == ".self" and f == "len":
+                    return ".writeInPlace"
+                raise Refuse(f"store into a payload that is neither fresh nor guarded: {js}")
+        if fn.cls == "String":
+            m = re.match(r"\( \( char \* \) (.+?) -> str \) \[", js)
+            if m and px(fn, m.group(1).split(" ")) is not None:
+                pe = px(fn, m.group(1).split(" "))[0]
+                if pe in fn.fresh:
+                    return ".skip"
+                if pe == ".self":
+                    return ".writeInPlace"
+            if js.startswith("* ( char * ) data -> str =") and ".self" not in fn.fresh:
+                return ".writeInPlace"
+            if s[:4] == ["Memory", "::", "copy", "("]:
                 args = split_top(s[4:-1], ",")
+                m = re.match(r"\( char \* \) (.+?) -> str$", " ".join(args[0]))
+                if not m or px(fn, m.group(1).split(" ")) is None or px(fn, m.group(1).split(" "))[0] not in fn.fresh:
+                    raise Refuse(f"Memory::copy whose target is not a fresh block: {js}")
+                dst = px(fn, m.group(1).split(" "))[0]
                 a = args[1]
                 if a[-2:] != ["->", "str"]:
                     raise Refuse("Memory::copy source is not <ptr>->str")
-                src = need_px(self.fn, a[:-2], "copy source")[0]
-                continue
-            self.i = save
-            break
-        if not ref1:
-            raise Refuse("fresh block: `ref = 1` missing")
-        if src is None:
-            raise Refuse("fresh block: no copy of the source bytes")
-        return f".allocCopy {pe} {src}"
+                src = need_px(fn, a[:-2], "copy source")[0]
+                if fn.fresh[dst]["copied"]:
+                    raise Refuse("second copy into a fresh block")
+                fn.fresh[dst]["copied"] = True
+                return f".allocCopy {dst} {src}"
+        if fn.cls == "Variant":
+            # T* x = (T*)(p + 1);
+            m = re.match(r"^[\w<>, :]+ \* (\w+) = \( [\w<>, :]+ \* \) \( (.+?) \+ 1 \)$", js)
+            if m and px(fn, m.group(2).split(" ")) is not None and px(fn, m.group(2).split(" "))[0] in fn.fresh:
+                fn.content[m.group(1)] = px(fn, m.group(2).split(" "))[0]
+                return ".skip"
+            # new (x) T(arg);  /  new (x) T;
+            if s[:2] == ["new", "("] and len(s) > 3 and s[3] == ")" and s[2] in fn.content:
+                dst = fn.content[s[2]]
+                rest = s[4:]
+                arg = rest[rest.index("(") + 1:-1] if "(" in rest else []
+                if not arg:
+                    src = ".static_"
+                elif "this" in arg or "data" in arg:
+                    src = ".self"
+                elif fn.tparam is not None and arg == [fn.tparam]:
+                    src = ".other"
+                else:
+                    raise Refuse(f"placement new from something else than the own content or the argument: {js}")
+                if fn.fresh[dst]["copied"]:
+                    raise Refuse("second construction in a fresh block")
+                fn.fresh[dst]["copied"] = True
+                return f".allocCopy {dst} {src}"
+            # *(T*)(data + 1) = other;
+            if fn.tparam is not None and re.match(r"^\* \( [\w<>, :]+ \* \) \( data \+ 1 \) = " + re.escape(fn.tparam) + r"$", js):
+                return ".writeInPlace"
+        return None
 
 
 def init_list(fn, toks):
@@ -498,13 +621,20 @@ def init_list(fn, toks):
     return out
 
 
-def translate(src, cls, sig_rx, what, raw=False, clear_body=None):
+def translate(src, cls, sig_rx, what, raw=False, clear_body=None, tparam=False):
     param, init, body = find_function(src, sig_rx, what)
-    fn = Fn(cls, None if raw else param, param if raw else None)
+    fn = Fn(cls, None if (raw or tparam) else param, param if raw else None)
     fn.src = src
+    fn.tparam = param if tparam else None
     try:
         pre = init_list(fn, init)
-        return seq(pre + [Parser(fn, body, clear_body).block()])
+        out = seq(pre + [Parser(fn, body, clear_body).block()])
+        for pe, v in fn.fresh.items():
+            if not v["ref1"]:
+                raise Refuse(f"fresh block {pe}: `ref = 1` missing")
+            if not v["copied"]:
+                raise Refuse(f"fresh block {pe}: no copy / construction of its content")
+        return out
     except Refuse as e:
         raise Refuse(f"{what}: {e}")
 
@@ -541,6 +671,8 @@ def generate(repo):
         ("String_dtor", translate(s, S, r"~\s*String\s*\(\s*\)", "~String()")),
         ("String_assign", translate(s, S, r"String\s*&\s*operator\s*=\s*\(\s*const\s+String\s*&\s*(?P<p>" + ID + r")\s*\)", "String::operator=")),
         ("String_attach", translate(s, S, r"void\s+attach\s*\(\s*const\s+char\s*\*\s*" + ID + r"\s*,\s*usize\s+" + ID + r"\s*\)", "String::attach")),
+        ("String_clear", translate(s, S, r"void\s+clear\s*\(\s*\)", "String::clear")),
+        ("String_detach", translate(s, S, r"void\s+detach\s*\(\s*usize\s+" + ID + r"\s*,\s*usize\s+" + ID + r"\s*\)", "String::detach(copyLength, minCapacity)")),
     ]
     # Variant and Xml::Variant
     for pref, path, region_rx in (("Variant", "include/nstd/Variant.hpp", r"\bclass\s+Variant\s*\{"),
@@ -554,7 +686,17 @@ def generate(repo):
             (pref + "_clear", clear),
             (pref + "_dtor", translate(v, V, r"~\s*Variant\s*\(\s*\)", f"~{pref}()", clear_body=clear)),
             (pref + "_assign", translate(v, V, r"Variant\s*&\s*operator\s*=\s*\(\s*const\s+Variant\s*&\s*(?P<p>" + ID + r")\s*\)", f"{pref}::operator=", clear_body=clear)),
+            (pref + "_assignString", translate(v, V, r"Variant\s*&\s*operator\s*=\s*\(\s*const\s+String\s*&\s*(?P<p>" + ID + r")\s*\)", f"{pref}::operator=(const String&)", clear_body=clear, tparam=True)),
         ]
+        if pref == "Variant":
+            for nm, ty, acc in (("List", r"List\s*<\s*Variant\s*>", "toList"), ("Array", r"Array\s*<\s*Variant\s*>", "toArray"),
+                                ("Map", r"HashMap\s*<\s*String\s*,\s*Variant\s*>", "toMap")):
+                defs.append((f"Variant_assign{nm}", translate(v, V, r"Variant\s*&\s*operator\s*=\s*\(\s*const\s+" + ty + r"\s*&\s*(?P<p>" + ID + r")\s*\)",
+                                                              f"Variant::operator=(const {nm}&)", clear_body=clear, tparam=True)))
+                defs.append((f"Variant_{acc}", translate(v, V, r"(?<!const\s)" + ty + r"\s*&\s*" + acc + r"\s*\(\s*\)(?!\s*const)", f"Variant::{acc}()", clear_body=clear)))
+            defs.append(("Variant_toString", translate(v, V, r"(?<!const\s)String\s*&\s*toString\s*\(\s*\)(?!\s*const)", "Variant::toString()", clear_body=clear)))
+        else:
+            defs.append(("XmlVariant_toElement", translate(v, V, r"(?<!const\s)Element\s*&\s*toElement\s*\(\s*\)(?!\s*const)", "Xml::Variant::toElement()", clear_body=clear)))
     # RefCount::Ptr
     r = preprocess((repo / "include/nstd/RefCount.hpp").read_text())
     r = class_region(r, r"template\s*<\s*class\s+C\s*=\s*Object\s*>\s*class\s+Ptr\s*\{", "class RefCount::Ptr")
@@ -604,7 +746,7 @@ def run(repo):
     OUT.parent.mkdir(parents=True, exist_ok=True)
     if not OUT.exists() or OUT.read_text() != text:
         OUT.write_text(text)
-    return True, f"{len(defs)} bodies translated (String 6, Variant 5, Xml::Variant 5, RefCount::Ptr 9)"
+    return True, f"{len(defs)} bodies translated (String 8, Variant 13, Xml::Variant 7, RefCount::Ptr 9)"
 
 
 if __name__ == "__main__":
